@@ -100,20 +100,30 @@ def build(repo):
 pub enum LineColLocation { Pos((usize, usize)), Span((usize, usize), (usize, usize)) }      // R6 shim of pest::error::LineColLocation
 pub open spec fn lc_line(l: LineColLocation) -> usize { match l { LineColLocation::Pos((a, _)) => a, LineColLocation::Span((a, _), _) => a } }
 // R8: the parse-error arm of compile(), verbatim; free variables became parameters
-pub fn parse_error_location(e_line_col: LineColLocation, mapped_lines: &Vec<(std::rc::Rc<String>, u32, Option<(std::rc::Rc<String>, u32)>)>, args_input: &String) -> (r: (std::rc::Rc<String>, u32, LineColLocation))
+// the including file and line recorded in a line-table entry (R6 stub of compile.rs's helper included_in_of, when the tree has it)
+pub open spec fn inc_of(e: (std::rc::Rc<String>, u32, Option<(std::rc::Rc<String>, u32)>)) -> Option<(Seq<char>, u32)> {
+    match e.2 { Some(i) => Some(((*i.0)@, i.1)), None => None }
+}
+pub open spec fn inc_view(o: Option<(String, u32)>) -> Option<(Seq<char>, u32)> { match o { Some(i) => Some((i.0@, i.1)), None => None } }
+#[verifier::external_body]
+fn included_in_of(entry: &(std::rc::Rc<String>, u32, Option<(std::rc::Rc<String>, u32)>)) -> (r: Option<(String, u32)>) ensures inc_view(r) == inc_of(*entry) { unimplemented!() }
+pub fn parse_error_location(e_line_col: LineColLocation, mapped_lines: &Vec<(std::rc::Rc<String>, u32, Option<(std::rc::Rc<String>, u32)>)>, args_input: &String) -> (r: (std::rc::Rc<String>, u32, LineColLocation, Option<(String, u32)>))
     requires lc_line(e_line_col) >= 1,      // A-pest-lines: pest line numbers are 1-based
         match e_line_col { LineColLocation::Span(_, (l2, _)) => l2 >= 1, _ => true },
     ensures
         // the reported file and line are those of the line-table entry of the line pest points at
         (lc_line(e_line_col) - 1 < mapped_lines@.len()) ==> r.0 == mapped_lines@[lc_line(e_line_col) - 1].0 && r.1 == mapped_lines@[lc_line(e_line_col) - 1].1, //@ C06:parse-error-line
+        // ... and so are the including file and line
+        (lc_line(e_line_col) - 1 < mapped_lines@.len()) ==> inc_view(r.3) == inc_of(mapped_lines@[lc_line(e_line_col) - 1]), //@ C06:parse-error-included-in
 {
     let filename;
     let line;
+    %(included_decl)s
     %(arm)s
-    (filename, line, __lc)
+    (filename, line, __lc, %(included_res)s)
 }
 impl<'a> CompilerState<'a> {
-""" % {"arm": arm.text})
+""" % {"arm": arm.text, "included_decl": "let included_in;" if "included_in" in arm.text else "", "included_res": "included_in" if "included_in" in arm.text else "None"})
     text = common.PRELUDE + common.header_comment(NAME, cuts) + "verus! {\n" + SPECS + "impl<'a> CompilerState<'a> {\n" + "\n".join(parts) + "\n}\n" + common.CANARY + "\n} // verus!\n"
     u.text[None] = text
     u.rewrites = common.collect_rewrites(cuts)
